@@ -59,7 +59,7 @@ def c15_rf17(run):
     rf_tables.rf17(run)
     run.min_instances('RF17', 500)
     rf_flow.rf67(run, units=('mir',))
-    run.min_instances('RF67', 100)
+    run.min_instances('RF67', 60)
 
 
 def c15_rf19(run):
